@@ -305,10 +305,11 @@ def _is_ranges(ann: Any) -> bool:
 INT_TEXTS = ["7", "0x1f", "0b101", "0o17", "12", "0x2A", "33", "0X10"]
 FLOAT_TEXTS = ["1.5", "2.25", "3", "0.125"]
 BYTES_TEXTS = ["0a0b", "deadbeef", "00", "FF01"]
-STR_TEXTS = ["default", "abc", "xyz", "foo"]
+STR_TEXTS = ["default", "abc", "xyz", "foo", "date +%s", "100%"]  # incl. texts that are no format strings
 PATH_TEXTS = ["/nonexistent/c18/a", "/nonexistent/c18/b.db", "rel/c18"]
 URI_TEXTS = ["tcp-lines://127.0.0.1:1001", "tcp://127.0.0.1:1002", "unix-lines:///nonexistent/c18.sock",
-             "isotp://vcan0?src_addr=0x1&dst_addr=0x2&is_fd=false", "can-raw://vcan0", "doip://127.0.0.1:13400?src_addr=1&target_addr=2"]
+             "isotp://vcan0?src_addr=0x1&dst_addr=0x2&is_fd=false", "can-raw://vcan0", "doip://127.0.0.1:13400?src_addr=1&target_addr=2",
+             "tcp-lines://127.0.0.1:1003?tag=a%20b"]
 BAD = "zz!"
 
 
